@@ -102,6 +102,26 @@ def _alphabet(v, d, model):
         for g in group:
             ops += g
         related.append(group)
+    # '>' with open levels after it, over entries that TIE on the '>' level (same version, other state /
+    # extension): which of them is the last must not depend on set iteration order (hash seed)
+    for _ in range(3):
+        lab, flds = rng.choice(leaves)
+        segs = [val for _, val in flds]
+        if len(segs) < 4:
+            continue
+        i = rng.randrange(2, len(segs) - 1)
+        ties = []
+        for _ in range(5):
+            t = list(segs)
+            for j in range(i + 1, len(segs)):
+                pool = [w for w in (v.closed.get(flds[j][0]) or gen.NAMES) if w not in v.aliases]
+                t[j] = rng.choice(pool)
+            ties.append("/".join(t))
+        Lt = sorted(set(ties)) + ["/".join(segs)]
+        rng.shuffle(Lt)
+        srch = "/".join(segs[:i] + [">"] + ["*"] * (len(segs) - i - 1))
+        ops.append({"op": "find_list", "l": Lt, "s": srch, "m": "find"})
+        ops.append({"op": "find_list", "l": Lt, "s": srch, "m": "find_one"})
     # one '**' search (both flags change its answer) under every single-flag spelling, next to each other
     for _ in range(2):
         lab, flds = rng.choice(leaves)
@@ -310,7 +330,7 @@ def oracle_C20(run, n):
         path_labels = [l for l, _ in c["conf"]["paths"][0]["templates"]]
         missing = []
         for bt in spec["basetypes"]:
-            for k in [l["key"] for l in bt["levels"]] + [V, S]:
+            for k in [l["key"] for l in bt["levels"]] + ([V] if bt.get("short") else [V, S]):
                 name = "%s__%s" % (bt["name"], k)
                 if name not in labels:
                     missing.append(name)
